@@ -154,7 +154,8 @@ func runC05(c *Ctx) {
 	if binM == nil || unM == nil {
 		c.unres("built-in siblings", token.NoPos, "built-in binary/unary parse methods not found through the tables")
 	}
-	callLevel := t.pt.prec[t.tc.byName["LPAREN"]]
+	lparenT, _ := refTypeOf(t, "(")
+	callLevel := t.pt.prec[lparenT]
 	for _, r := range regs {
 		key := fnName(r.fn)
 		// the 'right' closure: the nested closure that parses the operand
@@ -606,7 +607,7 @@ func ruleTokenIds(c *Ctx, t *tables) {
 		allInstrs(f, func(_ *ssa.BasicBlock, _ int, in ssa.Instruction) {
 			switch x := in.(type) {
 			case *ssa.Store:
-				if fa, ok := x.Addr.(*ssa.FieldAddr); ok && (fieldOfAddr(fa) == counter || fieldOfAddr(fa) == memo) && f != reg && f != nb {
+				if fa, ok := x.Addr.(*ssa.FieldAddr); ok && (fieldOfAddr(fa) == counter || fieldOfAddr(fa) == memo) && f != reg && f != nb && !copyConstructStore(x) {
 					c.bad(fnName(f)+": writes the token-id allocator", x.Pos(), "only NewBuilder and RegisterTokenType may write the counter/memo")
 				}
 			case *ssa.MapUpdate:
